@@ -148,6 +148,10 @@ def gen_scene(rng):
     mask = np.zeros((ny, nx), bool)
     kinds = ['blob', 'flat2', 'pix1', 'masked', 'nanpix', 'neg', 'edge', 'flatbox', 'blob2', 'line']
     rng.shuffle(kinds)
+    if rng.random() < 0.6:
+        # an elongated source flanked by negative troughs: the enclosed flux is not monotonic in
+        # the radius, so the root search of fluxfrac_radius has to shrink its bracket or fails
+        kinds.insert(rng.randrange(3), 'trough')
     nsrc = rng.randint(3, 6)
     placed = []
     lab = 0
@@ -191,6 +195,14 @@ def gen_scene(rng):
         elif kind == 'line':
             data[y0, x0:x0 + 4] = [3, 5, 6, 2]
             seg[y0, x0:x0 + 4] = lab
+        elif kind == 'trough':
+            x1 = min(x0, nx - 7)
+            data[y0 + 2, x1:x1 + 6] = [6, 10, 14, 14, 10, 6]
+            seg[y0 + 2, x1:x1 + 6] = lab
+            depth = rng.choice([8, 12, 20])
+            for yy_ in (y0, y0 + 1, y0 + 3, y0 + 4):
+                if 0 <= yy_ < ny:
+                    data[yy_, x1:x1 + 6] = -depth / (1 if yy_ in (y0 + 1, y0 + 3) else 2)
         placed.append(kind)
     # labels need not be consecutive: relabel with a random increasing or shuffled map
     labels = sorted(rng.sample(range(1, 12), lab))
@@ -404,7 +416,9 @@ METHODS = {   # pseudo-properties: method name, argument, index in the returned 
     'M:kron:a:flux': ('kron_photometry', (2.5, 1.4), 0), 'M:kron:a:fluxerr': ('kron_photometry', (2.5, 1.4), 1),
     'M:kron:b:flux': ('kron_photometry', (3.0, 1.0, 2.0), 0),
     'M:kron:b:fluxerr': ('kron_photometry', (3.0, 1.0, 2.0), 1),
-    'M:fluxfrac:0.5': ('fluxfrac_radius', 0.5, None), 'M:fluxfrac:0.8': ('fluxfrac_radius', 0.8, None),
+    'M:fluxfrac:0.1': ('fluxfrac_radius', 0.1, None), 'M:fluxfrac:0.5': ('fluxfrac_radius', 0.5, None),
+    'M:fluxfrac:0.9': ('fluxfrac_radius', 0.9, None), 'M:fluxfrac:0.999': ('fluxfrac_radius', 0.999, None),
+    'M:fluxfrac:1.0': ('fluxfrac_radius', 1.0, None),
     'M:mkcirc:2.0': ('make_circular_apertures', 2.0, None),
     'M:mkkron:none': ('make_kron_apertures', None, None),
     'M:mkkron:c': ('make_kron_apertures', (3.0, 1.0), None),
@@ -414,7 +428,9 @@ PHOT = {   # op argument -> (pseudo-properties, name suffixes)
     'circ:3.0': (['M:circ:3.0:flux', 'M:circ:3.0:fluxerr'], ['_flux', '_fluxerr']),
     'kron:a': (['M:kron:a:flux', 'M:kron:a:fluxerr'], ['_flux', '_fluxerr']),
     'kron:b': (['M:kron:b:flux', 'M:kron:b:fluxerr'], ['_flux', '_fluxerr']),
-    'fluxfrac:0.5': (['M:fluxfrac:0.5'], ['']), 'fluxfrac:0.8': (['M:fluxfrac:0.8'], ['']),
+    'fluxfrac:0.1': (['M:fluxfrac:0.1'], ['']), 'fluxfrac:0.5': (['M:fluxfrac:0.5'], ['']),
+    'fluxfrac:0.9': (['M:fluxfrac:0.9'], ['']), 'fluxfrac:0.999': (['M:fluxfrac:0.999'], ['']),
+    'fluxfrac:1.0': (['M:fluxfrac:1.0'], ['']),
     'mkcirc:2.0': (['M:mkcirc:2.0'], None), 'mkkron:none': (['M:mkkron:none'], None),
     'mkkron:c': (['M:mkkron:c'], None),
 }
@@ -679,10 +695,14 @@ def make_value(S, spec, cat):
 
 
 def snapshot(S, cat):
-    """What a catalog reports about its extra properties (without side effects)."""
+    """What a catalog reports about its extra properties, and a deep copy (by value) of every
+    cached entry of its __dict__ — public or underscore, nested lists/arrays/objects included —
+    so that an in-place write into an object shared with another catalog is seen even before it
+    changes a public value (without side effects)."""
     ex = list(cat.extra_properties)
     return (tuple(ex), tuple((k, canon(cat.__dict__[k])) if k in cat.__dict__ else (k, 'MISSING') for k in ex),
-            tuple(sorted(k for k in cat.__dict__ if k not in S.init_attrs)))
+            tuple(sorted(k for k in cat.__dict__ if k not in S.init_attrs)),
+            tuple(sorted((k, canon_key(k, v)) for k, v in cat.__dict__.items() if k not in S.init_attrs)))
 
 
 class Abort(Exception):
@@ -705,7 +725,7 @@ def execute(desc):
     ops, obs, viol = [], [], []
     final = {}        # cat -> {public property: per-source canon list}
     done = []         # executed operations (aligned with ops/obs)
-    nsnap = [0]
+    nsnap = [0, 0]
     cname = S.klass.__name__
 
     def detof(c):
@@ -883,13 +903,32 @@ def execute(desc):
                 elif o == 'phot':
                     vals = list(res) if len(PHOT[od['arg']][0]) == 2 else [res]
                     obs.append('(IVals [' + '; '.join(ival_coq(S.ival(v)) for v in vals) + '])')
+                    # V: the same call on a fresh catalog gives, for each source, the same value
+                    for m, v in zip(PHOT[od['arg']][0], vals):
+                        if j not in srcs or m not in S.f:
+                            continue
+                        got = [canon(v)] if is_scalar(c) else elem_canons(m, v)
+                        nsnap[1] += 1
+                        if got != [S.f[m][s_] for s_ in srcs[j]]:
+                            meth, marg, _ = METHODS[m]
+                            viol.append((f'{cname}.{meth}:differs-from-fresh-catalog',
+                                         f'{meth}({marg}) on catalog #{j} differs from the same call on a fresh '
+                                         f'catalog (for the same sources) after the history',
+                                         {'case': desc, 'op': od, 'cat': j}, True))
                 else:
                     obs.append('IUnit')
                 # V: independence — the other catalogs report what they reported before
                 for k, snap in others.items():
                     nsnap[0] += 1
                     now = snapshot(S, cats[k])
-                    if now != snap:
+                    if now[:3] == snap[:3] and now[3] != snap[3]:
+                        changed = sorted(set(a[0] for a in set(now[3]) ^ set(snap[3])))
+                        viol.append(('SourceCatalog.__getitem__:shared-cached-objects',
+                                     f'{o} ({od.get("arg", "")}) on catalog #{j} changed the cached value(s) '
+                                     f'{changed} of catalog #{k} (objects shared by reference between parent and '
+                                     f'slice written in place)', {'case': desc, 'op': od, 'other': k,
+                                                                  'changed': changed}, True))
+                    elif now != snap:
                         viol.append(('SourceCatalog.__getitem__:shared-_extra_properties',
                                      f'{o} on catalog #{j} changed what catalog #{k} reports '
                                      f'(extra_properties {list(snap[0])} -> {list(now[0])}'
@@ -929,7 +968,7 @@ def execute(desc):
                 coq(t['desc']), coq(t['desc_det']), coq(t['f']), coq(t['fdet']), coq(t['special']), coq(t['isc_trace']),
                 coq(t['labels']), coq(t['n']), coq(t['hasdet']), coq(t['d0']), '; '.join(ops), '; '.join(obs)))
     return {'term': term, 'viol': viol, 'nops': len(ops), 'ncats': len(cats), 'rel': rel, 'setup': S,
-            'done': done, 'ops': ops, 'obs': obs, 'final': final, 'nsnap': nsnap[0]}
+            'done': done, 'ops': ops, 'obs': obs, 'final': final, 'nsnap': nsnap[0], 'nphot': nsnap[1]}
 
 
 # --------------------------------------------------------------------------
@@ -1031,9 +1070,26 @@ def gen_case(rng, cls, scene_seed, cfg, S):
     if S.precached:      # lazyproperties already evaluated by __init__
         ops.append({'op': 'eval', 'j': 0, 'p': S.precached[-1], 'forced_trace': S.precached[:-1]})
     pre_eval(0, rng.choice([0, 0, 2, 6, 20, 60, len(lazy_ok)]))
+    def phot_op(j, fluxfrac_only=False):
+        args = [a for a in sorted(PHOT) if not set(PHOT[a][0]) & S.bad_methods
+                and (a.startswith('fluxfrac') or not fluxfrac_only)]
+        if not args:
+            return
+        arg = rng.choice(args)
+        name = None
+        if PHOT[arg][1] is not None and rng.random() < 0.25:
+            name = {'c': 'c1', 'k': 'k1', 'f': 'ff1'}[arg[0]]
+        ops.append({'op': 'phot', 'j': j, 'arg': arg, 'name': name, 'overwrite': True})
+
+    storm = cls == 'sc' and rng.random() < 0.5
     if cls == 'sc':
         for _ in range(rng.choice([0, 0, 1, 2, 3])):
             extras_op(0)
+        if storm and rng.random() < 0.7:
+            # the caches of the photometry methods (_fluxfrac_optimizer_args, kron apertures, ...)
+            # exist before the indexing: parent and slices share their per-source entries
+            for _ in range(rng.randint(1, 2)):
+                phot_op(0, fluxfrac_only=rng.random() < 0.7)
     ops.append({'op': 'dict', 'j': 0})
     c1 = do_index(0)
     ops.append({'op': 'dict', 'j': c1})
@@ -1062,6 +1118,12 @@ def gen_case(rng, cls, scene_seed, cfg, S):
                           {'kind': 'getn', 'labels': [cats[j][0][0], 98]}])
         ops.append({'op': 'index', 'j': j, 'idx': bad, 'invalid': True})
         ops.append({'op': 'dict', 'j': j})
+    if storm:
+        # photometry methods with arguments that exercise the retry / failure branches, repeated on
+        # parent and children in both orders (results are compared with a fresh catalog; the deep
+        # snapshots of all other catalogs must not change)
+        for _ in range(rng.randint(3, 6)):
+            phot_op(rng.randrange(len(cats)), fluxfrac_only=rng.random() < 0.7)
     if cls == 'sc':
         for _ in range(rng.choice([0, 1, 2, 3, 5])):
             j = rng.randrange(len(cats))
@@ -1209,8 +1271,9 @@ def run(ctx):
         ctx.count_case(json.dumps(d, sort_keys=True, default=str), bool(r['rel']))
         ctx.support('direct oracle: cat[idx].p == cat.p[idx] == fresh.p[sources] (property values compared)',
                     sum(len(v) for v in r['final'].values()))
-        ctx.support('direct oracle: mutating operation leaves every other catalog unchanged (snapshots compared)',
-                    r['nsnap'])
+        ctx.support('direct oracle: mutating operation leaves every other catalog unchanged (deep snapshots of '
+                    'all cached values compared)', r['nsnap'])
+        ctx.support('direct oracle: photometry method result == same call on a fresh catalog', r['nphot'])
         for k, (j, pos, scalar) in r['rel'].items():
             ctx.stat('children', 'scalar' if scalar else f'multi:{min(len(pos), 3)}{"+" if len(pos) > 3 else ""}')
         for sig, what, detail, found in r['viol']:
